@@ -158,6 +158,17 @@ func c02Devs() []c02Dev {
 			{Oid: "1.2.3.4.5.6.7"},
 			{Oid: "2.5.29.32.0", Qualifiers: &[]refcfg.Qualifier{{Notice: &refcfg.UserNotice{Text: refcfg.S("short")}}, {Notice: &refcfg.UserNotice{Organization: refcfg.S("An Organisation"), Numbers: &[]int{1, 20, 300}, Text: refcfg.S("a longer explicit text")}}}}}}}
 	})
+	// names across the 127/128 and 255/256 length-form boundaries inside GeneralName lists
+	for _, l := range []int{127, 128, 129, 200, 255, 256, 300} {
+		l := l
+		add("ext", fmt.Sprintf("general-names-of-%d-octets", l), func(c *refcfg.CertCfg, _ *c02Aux) {
+			host := strings.Repeat("h", l-len(".example"))
+			c.Exts = []refcfg.Ext{
+				{Kind: refcfg.KSAN, SAN: &[]refcfg.GeneralName{{Type: "dns", Name: host + ".example"}, {Type: "mail", Name: strings.Repeat("m", l-len("@e.example")) + "@e.example"}}},
+				{Kind: refcfg.KAIA, AIA: refcfg.Strs("http://" + strings.Repeat("o", l-len("http://.example/")) + ".example/")},
+			}
+		})
+	}
 	add("ext", "empty-list", func(c *refcfg.CertCfg, _ *c02Aux) { c.Exts, c.ExtsPresent = nil, true })
 	add("ext", "keyUsage-empty-set", func(c *refcfg.CertCfg, _ *c02Aux) { c.Exts = []refcfg.Ext{{Kind: refcfg.KKU, KU: refcfg.Strs()}} })
 	add("ext", "keyUsage-only-first-bit", func(c *refcfg.CertCfg, _ *c02Aux) {
